@@ -162,11 +162,17 @@ def h_amr_laws(bi: int, k: int):
         require(real.canonicalize_role('/') == '/', 'slash role changed')
 
 
+# the same role text occurs with different alignments and without one (a
+# rewrite keyed by role text must not leak an alignment to another edge)
 ROLES = {
-    'default': [':r', ':r-of-of', 'q-of~1', ':r-of-of-of~e.2'],
-    'amr': [':ARG0-of-of', ':domain-of~1', 'mod-of', ':consist-of-of-of'],
-    'custom': [':s-of-of-of', ':t-of~1', 'q1', ':r-of-of'],
-    'noop': [':r', ':r-of-of', 'q-of~1', ':r-of-of-of~e.2'],
+    'default': [':r', ':r~1', ':r-of-of', 'q-of~1', ':r-of-of-of~e.2',
+                ':r~e.3'],
+    'amr': [':ARG0-of-of', ':domain-of~1', 'mod-of', ':consist-of-of-of',
+            ':domain-of', ':domain-of~e.2'],
+    'custom': [':s-of-of-of', ':t-of~1', 'q1', ':r-of-of', ':t-of~e.2',
+               ':t-of'],
+    'noop': [':r', ':r~1', ':r-of-of', 'q-of~1', ':r-of-of-of~e.2',
+             ':r~e.3'],
 }
 
 
@@ -175,8 +181,8 @@ def h_tree_clause(model: str, n: int, **sym):
     from penman.tree import Tree
     from vflib.oracles import split_role_alignment
     real, ref = models.get(model)
-    node = progs.tree_program(sym, n, ROLES[model], ['a', 'x~3', None],
-                              [NO_CONCEPT, 'y~1', None])
+    node = progs.tree_program(sym, n, ROLES[model], ['a', 'x~3'],
+                              [NO_CONCEPT, 'y~1'])
     t = Tree(progs.copy_tree(node), metadata={'id': '7'})
     try:
         t2 = transform.canonicalize_roles(t, real)
